@@ -479,6 +479,13 @@ func (w *World) Key() Key {
 			mix(&h, 0xd0)
 		} else if t.pending != nil {
 			mix(&h, uint64(t.pending.Kind)+0x10)
+			if t.pending.Kind == OpYield || t.pending.Kind == OpMainReturn {
+				// the announced operation carries observations (argument terms, outcome) the thread already made
+				mixs(&h, t.pending.Label)
+				for _, a := range t.pending.Args {
+					mixs(&h, a)
+				}
+			}
 		}
 	}
 	for _, c := range w.chans {
@@ -575,6 +582,11 @@ func Access(label string, reads, writes []string) {
 		if !w.written[r] {
 			w.Violate("read-before-write", fmt.Sprintf("variable %s read by %s at [%s] before any write", r, t.Name, label))
 		}
+		// reads-from enters the reader's history: what a thread does next may depend on WHICH write it saw, and
+		// that is not visible anywhere else until the value is passed on (two states that differ only in what a
+		// parked thread has already read must not be merged by the state key)
+		mixs(&t.hist, "rf:"+r)
+		mix(&t.hist, uint64(w.lastW[r])+0x51)
 	}
 	t.record(Event{Kind: OpAccess, Obj: -1, Label: label})
 }
